@@ -21,6 +21,8 @@ def run(rep, tier):
     rep.rule("R-LU-INTERLEAVE", "writer/reader agreement on row interchanges: the factorisation swaps only columns >= k (deferred interchanges), so every pivot read in a solve sits in the elimination loop over k and precedes the update of column k")
     linalg.r_lu_interleave(rep, f)
     linalg.r_cplx_algebra(rep, f)
+    rep.rule("R-CPLX-MODULUS", "every |re| + |im| magnitude in the complex factorisation pairs the real and the imaginary matrix at the same entry")
+    linalg.r_cplx_modulus(rep, f)
     linalg.r_solve_readonly(rep, f)
     linalg.r_lu_checked(rep, f)
     rep.explanation = ("Decides the error discipline, the pivoting idiom, the sign convention shared by factorisation and solves, and read-only-ness of the factors. "
